@@ -231,6 +231,63 @@ def check_loader(run):
     run.case({"unknown-name": True}, kind="unknown-name")
 
 
+def repeated_load_cases(run):
+    """one training-set directory loaded several times in one process with
+    changing flags: every load must return what the same call returns for a
+    fresh copy of the directory that is loaded only once (a load never changes
+    what a later load sees)"""
+    from nanite.rate import IndentationRater
+    connames = IndentationRater.get_feature_names(which_type="continuous")
+    base = common.scratch() / "ts_repeat"
+    shutil.rmtree(base, ignore_errors=True)
+    for t in range(2 if run.tier == "quick" else 12):
+        sub = sorted(run.rng.sample(connames, 3))
+        # a pattern with zero-rated NaN rows, other NaN rows and infinities
+        X, y, pat = None, None, None
+        for _ in range(200):
+            X, y, pat = rnd_matrix(run.rng, sub)
+            if np.isnan(X).any() and np.isinf(X).any() and (y == 0).any() \
+                    and X.shape[0] >= 8 and not has_all_inf_column(X, y):
+                break
+        d = base / f"ts_{t}"
+        write_ts(d, sub, X, y)
+        seq = [(True, True, True), (True, False, True), (False, True, False),
+               (True, True, False), (False, False, False), (True, True, True)]
+        for j, flags in enumerate(seq):
+            ref_dir = base / f"ts_{t}_ref{j}"
+            shutil.copytree(d, ref_dir)
+            run.case({"repeated-load": t, "step": j, "flags": flags},
+                     kind="repeated-load")
+            key = f"repeated-load:{t}:{j}"
+
+            def load(path):
+                try:
+                    Xo, yo = IndentationRater.load_training_set(
+                        path=path, names=list(sub), replace_inf=flags[0],
+                        impute_zero_rated_nan=flags[1], remove_nan=flags[2])
+                    return ("ok", np.array(Xo, copy=True),
+                            np.array(np.atleast_1d(yo), copy=True))
+                except BaseException as e:
+                    return (type(e).__name__, None, None)
+            got, want = load(d), load(ref_dir)
+            shutil.rmtree(ref_dir, ignore_errors=True)
+            same = got[0] == want[0] and (got[0] != "ok" or (
+                got[1].shape == want[1].shape
+                and np.array_equal(got[1], want[1], equal_nan=True)
+                and np.array_equal(got[2], want[2], equal_nan=True)))
+            if not same:
+                run.failing(SITE, key, f"load {j + 1} of one directory (flags "
+                            f"replace_inf, impute, remove_nan = {flags}, after"
+                            f" loads with {seq[:j]}) differs from the same "
+                            "call on a fresh copy of the directory: "
+                            f"{got[0]} {None if got[1] is None else got[1].shape}"
+                            f" vs {want[0]} "
+                            f"{None if want[1] is None else want[1].shape}",
+                            payload={"kind": "rerun"},
+                            theorem="C15_aligned_and_frame")
+        shutil.rmtree(d, ignore_errors=True)
+
+
 def check_names(run):
     """get_feature_names against the model's select_names"""
     from nanite.rate import IndentationRater
@@ -415,6 +472,7 @@ def check(run):
         "responses are integers 0..10 for the weight theorems",
     ]
     check_loader(run)
+    repeated_load_cases(run)
     check_names(run)
     check_weights(run)
     check_export(run)
